@@ -599,15 +599,15 @@ def p5(prog, tier="quick"):
     n = 0
     for a in strs:
         sa = show(a)
-        ok, r = run("P5:length", f_len, Obj("op"), [vs(a)], "`length` of %s" % sa)
+        ok, r = run("P5:length", f_len, _op(ev, f_len), [vs(a)], "`length` of %s" % sa)
         n += 1
         if ok and (cval(r) != len(a) or getattr(r, "m_pos", None) != 0):
             report("P5:length", f_len, "`length` of %s yields %s; the string has %d bytes" % (sa, cval(r), len(a)))
-        ok, r = run("P5:?empty", f_empty, Obj("op"), [vs(a)], "`?empty` on %s" % sa)
+        ok, r = run("P5:?empty", f_empty, _op(ev, f_empty), [vs(a)], "`?empty` on %s" % sa)
         if ok and pr(r) != ("yes" if not a else "no"):
             report("P5:?empty", f_empty, "`?empty` on %s answers %s" % (sa, pr(r)))
         for f_e, nx, nm, want in ((f_elem, n_elem, "elem", list(a)), (f_relem, n_relem, "relem", list(a)[::-1])):
-            ok, p = run("P5:" + nm, f_e, Obj("op"), [vs(a)], "`%s` on %s" % (nm, sa))
+            ok, p = run("P5:" + nm, f_e, _op(ev, f_e), [vs(a)], "`%s` on %s" % (nm, sa))
             if not ok:
                 continue
             outs = []
@@ -627,11 +627,11 @@ def p5(prog, tier="quick"):
         for b in strs:
             sa, sb = show(a), show(b)
             n += 1
-            ok, r = run("P5:add", f_add, Obj("op"), [vs(a), vs(b)], "`add` of %s and %s" % (sa, sb))
+            ok, r = run("P5:add", f_add, _op(ev, f_add), [vs(a), vs(b)], "`add` of %s and %s" % (sa, sb))
             if ok and (sval(r) != a + b or getattr(r, "m_pos", None) != 0):
                 report("P5:add", f_add, "`add` of %s and %s yields %s" % (sa, sb, show(sval(r)) if sval(r) is not None else None))
             for key, f, model in (("P5:?find", f_find, b in a), ("P5:?starts", f_starts, a.startswith(b)), ("P5:?ends", f_ends, a.endswith(b))):
-                ok, r = run(key, f, Obj("op"), [vs(a), vs(b)], "`%s` on %s and %s" % (key[3:], sa, sb))
+                ok, r = run(key, f, _op(ev, f), [vs(a), vs(b)], "`%s` on %s and %s" % (key[3:], sa, sb))
                 if ok and pr(r) != ("yes" if model else "no"):
                     report(key, f, "`%s` with haystack %s and needle %s answers %s" % (key[3:], sa, sb, pr(r)))
             ok, r = run("P5:cmp", f_cmp, vs(a), [vs(b)], "comparison of %s and %s" % (sa, sb))
@@ -771,16 +771,16 @@ def p6(prog, tier="quick"):
     n = 0
     for a in seqs:
         sa = show(a)
-        ok, r = run("P6:length", f_len, Obj("op"), [vq(a)], "`length` of %s" % sa)
+        ok, r = run("P6:length", f_len, _op(ev, f_len), [vq(a)], "`length` of %s" % sa)
         n += 1
         if ok and (cval(r) != len(a) or getattr(r, "m_pos", None) != 0):
             report("P6:length", f_len, "`length` of %s yields %s" % (sa, cval(r)))
-        ok, r = run("P6:?empty", f_empty, Obj("op"), [vq(a)], "`?empty` on %s" % sa)
+        ok, r = run("P6:?empty", f_empty, _op(ev, f_empty), [vq(a)], "`?empty` on %s" % sa)
         if ok and pr(r) != ("yes" if not a else "no"):
             report("P6:?empty", f_empty, "`?empty` on %s answers %s" % (sa, pr(r)))
         for f_e, nx, nm, want in ((f_elem, n_elem, "elem", list(a)), (f_relem, n_relem, "relem", list(a)[::-1])):
             src = vq(a)
-            ok, p = run("P6:" + nm, f_e, Obj("op"), [src], "`%s` on %s" % (nm, sa))
+            ok, p = run("P6:" + nm, f_e, _op(ev, f_e), [src], "`%s` on %s" % (nm, sa))
             if not ok:
                 continue
             outs = []
@@ -801,13 +801,13 @@ def p6(prog, tier="quick"):
         for b in seqs:
             sa, sb = show(a), show(b)
             n += 1
-            ok, r = run("P6:add", f_add, Obj("op"), [vq(a), vq(b)], "`add` of %s and %s" % (sa, sb))
+            ok, r = run("P6:add", f_add, _op(ev, f_add), [vq(a), vq(b)], "`add` of %s and %s" % (sa, sb))
             if ok:
                 got = [x.key() for x in getattr(r, "m_seq", Vec()).items] if hasattr(r, "m_seq") else None
                 if got != list(a + b) or getattr(r, "m_pos", None) != 0:
                     report("P6:add", f_add, "`add` of %s and %s yields %s" % (sa, sb, got))
             for key, f, model in (("P6:?find", f_find, contains(a, b)), ("P6:?starts", f_starts, a[:len(b)] == b), ("P6:?ends", f_ends, len(b) <= len(a) and a[len(a) - len(b):] == b)):
-                ok, r = run(key, f, Obj("op"), [vq(a), vq(b)], "`%s` on %s and %s" % (key[3:], sa, sb))
+                ok, r = run(key, f, _op(ev, f), [vq(a), vq(b)], "`%s` on %s and %s" % (key[3:], sa, sb))
                 if ok and pr(r) != ("yes" if model else "no"):
                     report(key, f, "`%s` with haystack %s and needle %s answers %s" % (key[3:], sa, sb, pr(r)))
             ok, r = run("P6:cmp", f_cmp, vq(a), [vq(b)], "comparison of %s and %s" % (sa, sb))
@@ -947,3 +947,15 @@ def p7(prog):
         if bad:
             findings.append({"key": key, "where": "libzwerg/" + f["l"], "msg": bad, "detail": None})
     return inst, findings
+
+
+_OPS = {}
+
+
+def _op(ev, f):
+    """the operator object a word's operate()/result() runs on: one per word and evaluator, reused for every input, as a compiled
+    query reuses it for every stack (state kept in a data member would make later answers depend on earlier inputs)"""
+    k = (id(ev), f["fid"])
+    if k not in _OPS:
+        _OPS[k] = ev.new_object(f.get("cls") or "op")
+    return _OPS[k]
